@@ -74,3 +74,9 @@ class UThZr(FuelMaterial):
         density = uThZr0 * (1.0 + (1.0 - f) / f)
 
         return density
+
+    def density(self, Tk=None, Tc=None):
+        """Mass density in g/cc expanded in 3D: the 2D-expanded pseudoDensity over one more linear factor."""
+        Tk = getTk(Tc, Tk)
+        dLL = self.linearExpansionPercent(Tk=Tk)
+        return self.pseudoDensity(Tk=Tk) / (1.0 + dLL / 100.0)
